@@ -1162,6 +1162,14 @@ def c18(res):
         if (snap == live) is not False or (snap != live) is not True or (copy.deepcopy(live) == live) is not True:
             res.fail("property", "C18: %s: == between a snapshot and the updated rating of the same player does not follow (mu, sigma)" % kind,
                      dict(type="c18snap", kind=kind))
+        # the very same object on both sides, and two names for one object
+        for (m_, s_) in pts[:12]:
+            a_ = R(m_, s_); b_ = a_
+            refl = (a_ <= a_, a_ >= a_, a_ < a_, a_ > a_, a_ == a_, a_ != a_, a_ <= b_, b_ >= a_, all(a_ >= p_ for p_ in [a_]), max([a_, a_]) is a_)
+            res.count("reflexive_comparisons")
+            if refl != (True, True, False, False, True, False, True, True, True, True):
+                res.fail("property", "C18: %s: comparing a rating (%r, %r) with itself gives (<=, >=, <, >, ==, !=, ...) = %r" % (kind, m_, s_, refl),
+                         dict(type="c18refl", kind=kind)); break
         # a live rating and an earlier snapshot of it (same id, other values) are ordered by THEIR OWN ordinals, whichever is asked first
         for first in ("live", "snap"):
             live = R(25.0, 8.0, "p"); snap = copy.deepcopy(live)
@@ -1243,6 +1251,19 @@ def c19_signatures(res):
         sigs = {k: norm_sig(getattr(RATING_CLS[k], meth), names) for k in KINDS}
         if len(set(sigs.values())) != 1:
             res.fail("property", "C19: signature of rating.%s differs between the models: %r" % (meth, sigs), dict(type="c19sig"))
+    for what, table in (("model constructor", MODEL_CLS), ("rating constructor", RATING_CLS)):
+        sigs = {k: norm_sig(table[k].__init__, names) for k in KINDS}
+        res.count("signatures")
+        if len(set(sigs.values())) != 1:
+            res.fail("property", "C19: signature of the %s differs between the models: %r" % (what, sigs), dict(type="c19sig"))
+    # the documented positional order of the constructor: (mu, sigma, beta, kappa, gamma, tau, limit_sigma)
+    for k in KINDS:
+        M = MODEL_CLS[k]
+        dg = M().gamma
+        m1 = M(30.0, 10.0, 5.0, 1e-3, dg, 0.25, True)
+        got = (m1.mu, m1.sigma, m1.beta, m1.kappa, m1.gamma is dg, m1.tau, m1.limit_sigma)
+        if got != (30.0, 10.0, 5.0, 1e-3, True, 0.25, True):
+            res.fail("property", "C19: %s(mu, sigma, beta, kappa, gamma, tau, limit_sigma) given by position is configured as %r" % (M.__name__, got), dict(type="c19sig"))
     pubs = {k: sorted(n for n in dir(MODEL_CLS[k]) if not n.startswith("_") and not n.endswith("Rating")) for k in KINDS}
     if len(set(map(tuple, pubs.values()))) != 1:
         res.fail("property", "C19: the models expose different public operations: %r" % pubs, dict(type="c19sig"))
@@ -1811,9 +1832,46 @@ def c20_store_aliasing(res, rng):
                          "players rebuilt from the same values: %r vs %r" % (kind, got, want), dict(type="c20alias", kind=kind)); break
 
 
+def _ids_in_child(kind, n, q):
+    m = MODEL_CLS[kind]()
+    q.put([str(m.rating().id) for _ in range(n)] + [str(m.create_rating([25.0, 8.0]).id)])
+
+
+def c20_forked_workers(res):
+    """ratings created in forked worker processes (the default way multiprocessing starts workers on Linux) after the parent has created
+    some: every id is fresh — unique across the workers and the parent"""
+    import multiprocessing as mp
+    try:
+        ctx = mp.get_context("fork")
+    except ValueError:
+        return
+    for kind in KINDS:
+        model = MODEL_CLS[kind]()
+        parent = [str(model.rating().id) for _ in range(3)]
+        q = ctx.Queue()
+        ps = [ctx.Process(target=_ids_in_child, args=(kind, 4, q)) for _ in range(3)]
+        for p_ in ps:
+            p_.start()
+        got = []
+        try:
+            for _ in ps:
+                got.append(q.get(timeout=60))
+        except Exception:  # noqa: BLE001
+            res.count("forked_worker_probe_timed_out")
+        for p_ in ps:
+            p_.join(timeout=30)
+        ids = parent + [i for g_ in got for i in g_]
+        res.count("ids_from_forked_workers", len(ids) - len(parent))
+        if len(set(ids)) != len(ids):
+            res.fail("property", "C20: %s: ratings created in forked worker processes share ids (%d ids, %d distinct)" % (kind, len(ids), len(set(ids))),
+                     dict(type="c20fork", kind=kind))
+
+
 def c20(res):
     rng = random.Random(res.seed)
     c20_store_aliasing(res, rng)
+    if res.shard == 0:
+        c20_forked_workers(res)
     seen = set()
     for kind in KINDS:
         res.case(dict(kind=kind, what="constructors"))
